@@ -48,6 +48,13 @@ type CircuitBreaker struct {
 	lastFailureTime time.Time
 	lastSuccessTime time.Time
 	nextAttempt     time.Time
+	pendingChanges  []stateChange // notifications to deliver once the lock is released
+}
+
+// stateChange is a state transition waiting to be reported to onStateChange
+type stateChange struct {
+	from State
+	to   State
 }
 
 var (
@@ -171,7 +178,7 @@ func (cb *CircuitBreaker) beforeRequest() error {
 				cb.requestCount = 0
 				cb.successCount = 0
 			}
-			cb.mutex.Unlock()
+			cb.unlockAndNotify()
 			return nil
 		}
 		return ErrCircuitBreakerOpen
@@ -195,7 +202,7 @@ func (cb *CircuitBreaker) beforeRequest() error {
 // afterRequest updates the circuit breaker state after a request
 func (cb *CircuitBreaker) afterRequest(success bool) {
 	cb.mutex.Lock()
-	defer cb.mutex.Unlock()
+	defer cb.unlockAndNotify()
 
 	now := time.Now()
 
@@ -228,7 +235,7 @@ func (cb *CircuitBreaker) afterRequest(success bool) {
 	}
 }
 
-// setState changes the circuit breaker state and calls the callback
+// setState changes the circuit breaker state and queues the callback (must be called with the write lock held)
 func (cb *CircuitBreaker) setState(state State) {
 	if cb.state == state {
 		return
@@ -238,7 +245,20 @@ func (cb *CircuitBreaker) setState(state State) {
 	cb.state = state
 
 	if cb.onStateChange != nil {
-		cb.onStateChange(cb.name, prev, state)
+		cb.pendingChanges = append(cb.pendingChanges, stateChange{from: prev, to: state})
+	}
+}
+
+// unlockAndNotify releases the write lock and then reports the state changes made
+// while it was held. The callback runs without the lock, so it may call back into
+// the breaker (State, Counts) without deadlocking.
+func (cb *CircuitBreaker) unlockAndNotify() {
+	changes := cb.pendingChanges
+	cb.pendingChanges = nil
+	cb.mutex.Unlock()
+
+	for _, c := range changes {
+		cb.onStateChange(cb.name, c.from, c.to)
 	}
 }
 
